@@ -127,28 +127,51 @@ type runResult struct {
 	Over     bool
 }
 
-// runTraced executes the compiled chunk on a fresh state under the tracer.
+var hangs int
+
+// runTraced executes the compiled chunk on a fresh state under the tracer. The instruction budget
+// bounds Lua-level loops; a watchdog bounds the time spent inside single instructions (the run is
+// abandoned in its goroutine and reported; after three such hangs nothing more is executed).
 func runTraced(fp *lua.FunctionProto, root *P, budget int, setup func(L *lua.LState)) (tr *tracer, res runResult) {
 	L := lua.NewState(lua.Options{RegistrySize: 1024 * 20, CallStackSize: 256})
-	defer L.Close()
 	if setup != nil {
 		setup(L)
 	}
 	tr = newTracer(L, root, budget)
+	if hangs >= 3 {
+		res.Err = "not executed: too many hung runs"
+		return
+	}
 	L.SetContext(tr)
-	func() {
+	done := make(chan runResult, 1)
+	go func() {
+		var r runResult
 		defer func() {
-			if r := recover(); r != nil {
-				res.Panicked = trunc(fmt.Sprint(r), 300)
+			if rc := recover(); rc != nil {
+				r.Panicked = trunc(fmt.Sprint(rc), 300)
 			}
+			done <- r
 		}()
 		L.Push(L.NewFunctionFromProto(fp))
 		if err := L.PCall(0, lua.MultRet, nil); err != nil {
-			res.Err = trunc(err.Error(), 300)
+			r.Err = trunc(err.Error(), 300)
 		}
 	}()
-	res.Insts = tr.n
-	res.Over = tr.over
+	limit := 20 * time.Second
+	if budget > 100000 {
+		limit = 120 * time.Second
+	}
+	select {
+	case res = <-done:
+		res.Insts = tr.n
+		res.Over = tr.over
+		L.Close()
+	case <-time.After(limit):
+		hangs++
+		// the tracer is still being written by the abandoned goroutine: hand back an empty one
+		res = runResult{Panicked: fmt.Sprintf("hang: no result after %v under a budget of %d instructions", limit, budget), Insts: budget}
+		tr = newTracer(L, root, budget)
+	}
 	return
 }
 
